@@ -28,8 +28,8 @@ mod verif_kani_weekday_set {
         assert!(c.0 == a.0 | bit(d) && was == (a.0 & bit(d) == 0), "insert: set grows by d, reports whether it was new");
         let mut e = a; let had = e.remove(d);
         assert!(e.0 == a.0 & !bit(d) && had == (a.0 & bit(d) != 0), "remove: set shrinks by d, reports whether it was there");
-        assert!(WeekdaySet::EMPTY.0 == 0 && WeekdaySet::ALL.0 == 127);
-        assert!((a == b) == (a.0 == b.0));
+        assert!(WeekdaySet::EMPTY.0 == 0 && WeekdaySet::ALL.0 == 127, "WeekdaySet::EMPTY.0 == 0 && WeekdaySet::ALL.0 == 127");
+        assert!((a == b) == (a.0 == b.0), "(a == b) == (a.0 == b.0)");
     }
 
     // fns: WeekdaySet::{first, last, single_day, split_at}
@@ -39,11 +39,11 @@ mod verif_kani_weekday_set {
         let a = any_set(); let d = any_wd();
         kani::cover!(a.0 == 64);
         match a.first() {
-            None => assert!(a.0 == 0),
+            None => assert!(a.0 == 0, "a.0 == 0"),
             Some(f) => { assert!(a.0 & bit(f) != 0 && a.0 & (bit(f) - 1) == 0, "first is the lowest member from Monday"); }
         }
         match a.last() {
-            None => assert!(a.0 == 0),
+            None => assert!(a.0 == 0, "a.0 == 0"),
             Some(l) => { assert!(a.0 & bit(l) != 0 && (a.0 as u16) < (bit(l) as u16) << 1, "last is the highest member"); }
         }
         match a.single_day() {
@@ -153,7 +153,7 @@ mod verif_kani_weekday_set {
         let s7 = WeekdaySet::from_array(d);
         assert!(s7.0 == bit(d[0]) | bit(d[1]) | bit(d[2]) | bit(d[3]) | bit(d[4]) | bit(d[5]) | bit(d[6]), "from_array is the union of its elements");
         let s2 = WeekdaySet::from_array([d[0], d[1]]);
-        assert!(s2.0 == bit(d[0]) | bit(d[1]));
-        assert!(WeekdaySet::from_array([]).0 == 0);
+        assert!(s2.0 == bit(d[0]) | bit(d[1]), "s2.0 == bit(d[0]) | bit(d[1])");
+        assert!(WeekdaySet::from_array([]).0 == 0, "WeekdaySet::from_array([]).0 == 0");
     }
 }
